@@ -346,6 +346,34 @@ def gen_plan(rng, base: Case, cid):
     return c
 
 
+def gen_until_fail(rng, cid):
+    """a split plan whose run(until=event) waits for an event that another process fails (or a child process that raises)
+    while nobody, or somebody, handles the failure: C02 'a failed event that no waiter handles makes run()/step() raise'"""
+    c = Case(cid, 'plan')
+    t = rng.choice([0, 0.5, 1, 2])
+    main = []
+    c.progs.append(main)
+    c.mains.append((0, 1))
+    bad = rng.random() < 0.8
+    if rng.random() < 0.5:
+        c.progs.append([('timeout', 5, t, None), ('yield', 5, 0),
+                        ('raise', rng.choice(EXCS), rng.randint(0, 9)) if bad else ('ret', val(rng))])
+        main.append(('spawn', 0, 1, 301))
+    else:
+        main.append(('event', 0))
+        c.progs.append([('timeout', 5, t, None), ('yield', 5, 0),
+                        ('fail', 0, rng.choice(EXCS), rng.randint(0, 9)) if bad else ('succeed', 0, val(rng))])
+        c.mains.append((1, 2))
+    for j in range(rng.choice([0, 0, 0, 1, 2])):
+        c.progs.append([('timeout', 6 + j, rng.choice([0, 0.5]), None), ('yield', 6 + j, 0), ('yield', 0, rng.choice([0, 0, 3])), ('log', 80 + j)])
+        c.mains.append((len(c.progs) - 1, 3 + j))
+    main += [('timeout', 9, rng.choice([1, 3]), 7), ('yield', 9, 0), ('log', 81)]
+    c.plan = [('S', rng.randint(1, 4)), ('E', 0)]
+    if rng.random() < 0.5:
+        c.plan.append(rng.choice([('T', float(t + 1)), ('S', 2), ('E', 9)]))
+    return c
+
+
 # ------------------------------------------------------------------------------------------------
 # interrupts (C04): victims with long waits and the five handler behaviours, interrupters that hit them at
 # chosen instants (before, exactly at, after the victim's target is due; right after spawn; several at once),
@@ -356,6 +384,7 @@ def gen_intr(rng, cid, mode='step'):
     nv = rng.randint(1, 3)
     shared = 10            # slots 10.. hold the victims' targets (shared with co-waiters)
     names = 200
+    joins = []
     # programs 0..nv-1: victims
     for v in range(nv):
         prog = []
@@ -365,10 +394,16 @@ def gen_intr(rng, cid, mode='step'):
         for k in range(rng.randint(1, 5)):
             sl = shared + 3 * v + (k % 3)
             kind = rng.random()
-            if kind < 0.7:
+            if kind < 0.6:
                 prog.append(('timeout', sl, rng.choice([0.5, 1, 1, 2, 2, 3, 0]), rng.randint(0, 30)))
-            elif kind < 0.85:
+            elif kind < 0.72:
                 prog.append(('event', sl))
+            elif kind < 0.85:
+                # the victim joins a child process that returns or raises after a while (its end is an ordinary event, possibly of
+                # the very instant at which the victim is interrupted); the child's program is appended at the end
+                names += 1
+                joins.append((prog, len(prog), names))
+                prog.append(('spawn', sl, None, names))
             else:
                 prog.append(('anyof', sl, shared + 3 * v, shared + 3 * v + 1))
             prog.append(('yield', sl, rng.choice([0, 0, 1, 1, 1, 2, 3, 11, 12])))
@@ -399,7 +434,12 @@ def gen_intr(rng, cid, mode='step'):
     for i in range(rng.randint(1, 4)):
         prog = []
         for k in range(rng.randint(1, 4)):
-            prog += [('timeout', 30 + i, rng.choice([0, 0.5, 1, 1, 2, 2, 3, 4]), None), ('yield', 30 + i, 0)]
+            if joins and rng.random() < 0.25:
+                # wake on the timeout a joined child is sleeping on (slot 58), right behind that child: the child's generator
+                # ends and, in the same kernel step, the interrupt hits the process that is joining it
+                prog += [('yield', 58, 0)]
+            else:
+                prog += [('timeout', 30 + i, rng.choice([0, 0.5, 1, 1, 2, 2, 3, 4]), None), ('yield', 30 + i, 0)]
             for _ in range(rng.choice([1, 1, 1, 2, 3, 3])):
                 prog.append(('interrupt', rng.randrange(nv), 10 * i + k))
                 if rng.random() < 0.15:
@@ -447,4 +487,9 @@ def gen_intr(rng, cid, mode='step'):
             prog += [rng.choice([('succeed', sl, 5), ('fail', sl, 'ValueError', 4)])]
         c.progs.append(prog)
         c.mains.append((len(c.progs) - 1, 20 + i))
+    # the children the victims join
+    for prog, pos, nm in joins:
+        c.progs.append([('timeout', 58, rng.choice([0, 0.5, 1, 1, 2]), None), ('yield', 58, 0),
+                        rng.choice([('ret', 4), ('ret', None), ('raise', 'KeyError', 6)])])
+        prog[pos] = ('spawn', prog[pos][1], len(c.progs) - 1, nm)
     return c
